@@ -9,6 +9,13 @@ fn opt_hex(v: Option<Vec<u8>>) -> String {
     }
 }
 
+fn fmt_res<E: std::fmt::Debug>(r: Result<Vec<u8>, E>) -> String {
+    match r {
+        Ok(b) => format!("Ok {}", hex(&b)),
+        Err(e) => format!("Err {:?}", e),
+    }
+}
+
 pub fn exec(tok: &[&str]) -> String {
     match tok[0] {
         // ---- signature codec (C07, C03) --------------------------------------------------------
@@ -17,6 +24,31 @@ pub fn exec(tok: &[&str]) -> String {
         // the harness's own bit-list reference (compared with the Lean specification, not with the code)
         "ref_decompress" => crate::ops::opt_ints_pub(crate::codecref::ref_decompress(&unhex(tok[2]), tok[1].parse().unwrap())),
         "ref_compress" => opt_hex(crate::codecref::ref_compress(&parse_ints::<i32>(tok[2]), tok[1].parse().unwrap())),
+        // ---- key / signature formats (C06, C05, C03) ----------------------------------------------
+        "pk_from_bytes" => {
+            let b = unhex(tok[2]);
+            match tok[1] {
+                "512" => fmt_res(falcon_rust::falcon512::PublicKey::from_bytes(&b).map(|k| k.to_bytes())),
+                "1024" => fmt_res(falcon_rust::falcon1024::PublicKey::from_bytes(&b).map(|k| k.to_bytes())),
+                _ => panic!("bad-op"),
+            }
+        }
+        "sk_from_bytes" => {
+            let b = unhex(tok[2]);
+            match tok[1] {
+                "512" => fmt_res(falcon_rust::falcon512::SecretKey::from_bytes(&b).map(|k| k.to_bytes())),
+                "1024" => fmt_res(falcon_rust::falcon1024::SecretKey::from_bytes(&b).map(|k| k.to_bytes())),
+                _ => panic!("bad-op"),
+            }
+        }
+        "sig_from_bytes" => {
+            let b = unhex(tok[2]);
+            match tok[1] {
+                "512" => fmt_res(falcon_rust::falcon512::Signature::from_bytes(&b).map(|k| k.to_bytes())),
+                "1024" => fmt_res(falcon_rust::falcon1024::Signature::from_bytes(&b).map(|k| k.to_bytes())),
+                _ => panic!("bad-op"),
+            }
+        }
         _ => panic!("bad-op {}", tok[0]),
     }
 }
